@@ -462,6 +462,58 @@ def check_holders(ctx, unit, classes):
                          "every chain entry is made in a state with a non-trapping path (instantiation %s)" % rec["qn"])
 
 
+def check_holder_specials(ctx, unit, classes, rule="O2.holder-specials"):
+    """A class that keeps a T in raw storage together with an engaged flag must not be copyable by the implicit
+    member-wise copy: that duplicates the bytes of a live T (no copy constructor runs, both holders later destroy "their"
+    object) and, on assignment, overwrites a live T bytewise."""
+    ctx.rule(rule, "holders with raw storage + engaged flag (optional, expected, variant, manual_box) have user-provided or "
+             "deleted copy construction and copy assignment (no implicit byte-wise copy of the stored object)", len(classes))
+    for cls in classes:
+        seen = False
+        for rec in recs_of(unit, cls):
+            if not any(fl["n"] in CONFIG[cls]["stor"] for fl in rec["fields"]):
+                continue
+            if seen:
+                continue
+            seen = True
+            sp = rec["special"]
+            problems = []
+            if sp["simple_copy_ctor"]:
+                problems.append("implicit member-wise copy constructor is available")
+            if sp["simple_copy_assign"]:
+                problems.append("implicit member-wise copy assignment is available")
+            ctx.inst(rule, cls, not problems, rec["loc"], ("; ".join(problems) + ": the stored object is duplicated / overwritten as raw bytes")
+                     if problems else "copies are user-provided or deleted (instantiation %s)" % rec["qn"])
+
+
+def check_copy_selects_copy(ctx, unit, rule="W.copy-selects-copy"):
+    """Overload-resolution witness: in wit::probe_copy_select every holder is copy-constructed from a NON-CONST lvalue of
+    its own type.  The constructor clang resolves must be the copy constructor; a forwarding constructor template
+    `optional(U &&)` that is viable for U = optional & wins for T = bool (via explicit operator bool) and for any greedily
+    constructible T, and turns the copy into `engaged(bool(source))`."""
+    ctx.rule(rule, "copy-constructing optional/variant/expected from a non-const lvalue of the same type resolves to the copy "
+             "constructor for every witness element type (bool, a class with a catch-all constructor, a plain class)", 4)
+    fs = [f for f in unit.functions if f.name == "probe_copy_select"]
+    if not fs:
+        raise AnalysisBroken("anchor vanished: wit::probe_copy_select in the holders unit")
+    f = fs[0]
+    n_ = 0
+    for n in sorted([x for x in f.events() if x.kind == "CXXConstructExpr" and x.callee and (x.callee.get("cls") or "") in CONFIG],
+                    key=lambda x: x.loc):
+        a = n.args[0] if n.args else None
+        if a is None:
+            continue
+        n_ += 1
+        cal = n.callee
+        ok = bool(cal.get("copy"))
+        ctx.inst(rule, "%s from a non-const lvalue" % cal.get("qn", "?").rsplit("::", 1)[0], ok, n.loc,
+                 "resolves to %s(%s)%s" % (cal.get("n"), ", ".join(cal.get("ptypes", [])),
+                                           "" if ok else ": a constructor template, not the copy constructor — the copy's state becomes "
+                                           "engaged(T(source)) instead of the source's state"), f)
+    if n_ < 4:
+        raise AnalysisBroken("anchor vanished: copy constructions in wit::probe_copy_select (found %d)" % n_)
+
+
 def check_returns(ctx, unit, fns, rule="R.returns"):
     """A non-void function must not flow off its end."""
     ctx.rule(rule, "every non-void member returns a value on every path that reaches the end of the function", 10)
